@@ -373,6 +373,14 @@ def check_mech(case, ctx):
             if len(Reactants) != len(subset):
                 ctx.fail('C06.mech/readback:count', '%s: %d reactions written, %d read' % (fname, len(subset), len(Reactants)))
                 continue
+            # the equation strings it returns are the written equations (blanks aside), nothing cut off or left on
+            if len(Reactions_) != len(subset):
+                ctx.fail('C06.mech/readback:equation-count', '%s: %d equations for %d reactions' % (fname, len(Reactions_), len(subset)))
+            else:
+                for rx, eq_ in zip(subset, Reactions_):
+                    if ''.join(str(eq_).split()) != rxn_string(rx, case):
+                        ctx.fail('C06.mech/readback:equation-text', '%s: wrote %r, reader returns %r' % (fname, rxn_string(rx, case), eq_))
+                        break
             for rx, rn, rs_, pn, ps_ in zip(subset, Reactants, React_stoic, Products, Prod_stoic):
                 def merged(species_, stoich_):
                     out_ = {}
